@@ -561,80 +561,118 @@ func checkRounding(c *Ctx, fn *FuncInfo, up bool) {
 		return linForm{}, false
 	}
 	fg := newFlowGraph(info, fn.Decl.Body)
-	// the result variable: the single identifier returned
-	var resObj types.Object
+	// result variables: identifiers that some return hands back
+	resVars := map[types.Object]bool{}
 	for _, r := range fg.Returns() {
 		rs := r.Node.(*ast.ReturnStmt)
 		if len(rs.Results) == 1 {
 			if id, ok := ast.Unparen(rs.Results[0]).(*ast.Ident); ok {
-				resObj = info.ObjectOf(id)
+				resVars[info.ObjectOf(id)] = true
 			}
 		}
 	}
-	if resObj == nil {
-		c.und(name+"/result", fn.Decl.Pos(), "the function does not return a single result variable")
-		return
+	// value sites: assignments of float32(E) to a result variable, and returns of float32(E)
+	type site struct {
+		loc Loc
+		E   ast.Expr
+		v   types.Object // result variable, nil for a direct return
+		as  *ast.AssignStmt
+		pos token.Pos
+	}
+	var sites []site
+	convArg := func(e ast.Expr) ast.Expr {
+		conv, ok := ast.Unparen(e).(*ast.CallExpr)
+		if !ok || len(conv.Args) != 1 {
+			return nil
+		}
+		if tv, ok := info.Types[conv.Fun]; !ok || !tv.IsType() {
+			return nil
+		}
+		return conv.Args[0]
+	}
+	for _, b := range fg.G.Blocks {
+		if !fg.Reachable(b) {
+			continue
+		}
+		for i, nd := range b.Nodes {
+			switch x := nd.(type) {
+			case *ast.AssignStmt:
+				if len(x.Lhs) == 1 && len(x.Rhs) == 1 {
+					if id, ok := x.Lhs[0].(*ast.Ident); ok && resVars[info.ObjectOf(id)] {
+						if E := convArg(x.Rhs[0]); E != nil {
+							sites = append(sites, site{Loc{b, i, x}, E, info.ObjectOf(id), x, x.Pos()})
+						} else {
+							c.und(name+"/value", x.Pos(), "result assigned from %s: not a float32 conversion", exprStr(x.Rhs[0]))
+						}
+					}
+				}
+			case *ast.ReturnStmt:
+				if len(x.Results) == 1 {
+					if _, isId := ast.Unparen(x.Results[0]).(*ast.Ident); !isId {
+						if E := convArg(x.Results[0]); E != nil {
+							sites = append(sites, site{Loc{b, i, x}, E, nil, nil, x.Pos()})
+						} else {
+							c.und(name+"/value", x.Pos(), "returns %s: not a float32 conversion", exprStr(x.Results[0]))
+						}
+					}
+				}
+			}
+		}
 	}
 	one := big.NewRat(1, 1)
 	dirWord := map[bool]string{true: "above", false: "below"}[up]
-	nAssign := 0
-	for _, l := range fg.Find(func(n ast.Node) bool {
-		as, ok := n.(*ast.AssignStmt)
-		if !ok || len(as.Lhs) != 1 || len(as.Rhs) != 1 {
-			return false
-		}
-		id, ok := as.Lhs[0].(*ast.Ident)
-		return ok && info.ObjectOf(id) == resObj
-	}) {
-		as := l.Node.(*ast.AssignStmt)
-		conv, ok := ast.Unparen(as.Rhs[0]).(*ast.CallExpr)
-		if !ok || len(conv.Args) != 1 {
-			c.und(name+"/value", as.Pos(), "result assigned from %s: not a float32 conversion", exprStr(as.Rhs[0]))
-			continue
-		}
-		E := conv.Args[0]
-		nAssign++
-		if isD(E) {
-			// plain conversion: must be kept only when it is already on the right side
-			key := name + "/plain-conversion-kept-only-if-outward"
-			okKeep := true
-			// every path from this assignment to a return that does not reassign the result passes the false
-			// edge of float64(f) < d (up) / float64(f) > d (down)
-			wrongOp := token.LSS
-			if !up {
-				wrongOp = token.GTR
+	wrongOp := token.LSS
+	if !up {
+		wrongOp = token.GTR
+	}
+	mentions := func(x ast.Expr, o types.Object) bool {
+		hit := false
+		ast.Inspect(x, func(n ast.Node) bool {
+			if id, ok := n.(*ast.Ident); ok && info.ObjectOf(id) == o {
+				hit = true
 			}
+			return true
+		})
+		return hit
+	}
+	nNudge, nPlain := 0, 0
+	for _, st := range sites {
+		if isD(st.E) {
+			nPlain++
+			key := name + "/plain-conversion-kept-only-if-outward"
+			if st.v == nil {
+				c.und(key, st.pos, "float32(d) is returned directly: the rule cannot see the test that it is on the outer side")
+				continue
+			}
+			v := st.v
 			isWrongSide := func(e ast.Expr) bool {
 				be, ok := ast.Unparen(e).(*ast.BinaryExpr)
 				if !ok {
 					return false
 				}
-				resSide := func(x ast.Expr) bool {
-					hit := false
-					ast.Inspect(x, func(n ast.Node) bool {
-						if id, ok := n.(*ast.Ident); ok && info.ObjectOf(id) == resObj {
-							hit = true
-						}
-						return true
-					})
-					return hit
-				}
 				flip := map[token.Token]token.Token{token.LSS: token.GTR, token.GTR: token.LSS}
-				return be.Op == wrongOp && resSide(be.X) && isD(be.Y) || be.Op == flip[wrongOp] && isD(be.X) && resSide(be.Y)
+				return be.Op == wrongOp && mentions(be.X, v) && isD(be.Y) || be.Op == flip[wrongOp] && isD(be.X) && mentions(be.Y, v)
 			}
-			escape, _ := fg.Reach(PathQuery{From: l,
-				Target: func(t Loc) bool { _, ok := t.Node.(*ast.ReturnStmt); return ok },
+			escape, _ := fg.Reach(PathQuery{From: st.loc,
+				Target: func(t Loc) bool {
+					r, ok := t.Node.(*ast.ReturnStmt)
+					if !ok || len(r.Results) != 1 {
+						return false
+					}
+					id, ok := ast.Unparen(r.Results[0]).(*ast.Ident)
+					return ok && info.ObjectOf(id) == v
+				},
 				Avoid: func(t Loc) bool {
-					if a2, ok := t.Node.(*ast.AssignStmt); ok && a2 != as && len(a2.Lhs) == 1 {
-						if id, ok := a2.Lhs[0].(*ast.Ident); ok && info.ObjectOf(id) == resObj {
+					if a2, ok := t.Node.(*ast.AssignStmt); ok && a2 != st.as && len(a2.Lhs) == 1 {
+						if id, ok := a2.Lhs[0].(*ast.Ident); ok && info.ObjectOf(id) == v {
 							return true
 						}
 					}
 					return false
 				},
 				EdgeOK: func(b *cfg.Block, si int) bool {
-					// prune the edge on which the wrong-side test is FALSE (the kept value is fine there);
-					// what remains are paths that keep the plain conversion although it is on the wrong side
+					// the kept value is fine on every edge on which the wrong-side test is known FALSE;
+					// what remains are paths that keep the plain conversion although it may be on the wrong side
 					for _, f := range fg.edgeFacts(b, si) {
 						if f.Tag == nil && isWrongSide(f.E) && f.Neg {
 							return false
@@ -642,23 +680,46 @@ func checkRounding(c *Ctx, fn *FuncInfo, up bool) {
 					}
 					return true
 				}})
-			if escape {
-				okKeep = false
-			}
-			c.check(okKeep, key, as.Pos(), "float32(d) is returned unchanged only when it is not "+map[bool]string{true: "below", false: "above"}[up]+" d", "float32(d) can be returned although it lies on the inner side of d: the index rectangle does not contain the object's rectangle")
+			c.check(!escape, key, st.pos, "float32(d) is returned unchanged only when it is not "+map[bool]string{true: "below", false: "above"}[up]+" d", "float32(d) can be returned although it lies on the inner side of d: the index rectangle does not contain the object's rectangle")
 			continue
 		}
-		f, ok := lin(E)
-		key := fmt.Sprintf("%s/nudge@%s", name, exprStr(E))
+		nNudge++
+		f, ok := lin(st.E)
+		key := fmt.Sprintf("%s/nudge@%s", name, exprStr(st.E))
 		if !ok {
-			c.und(key, as.Pos(), "%s is not of the form a·d + b·|d| with constant a, b", exprStr(E))
+			c.und(key, st.pos, "%s is not of the form a·d + b·|d| with constant a, b", exprStr(st.E))
 			continue
 		}
-		// sign of d known on this path?
+		// sign of d known here? facts, closed under  A ∧ ¬(A ∧ B) ⇒ ¬B
+		type sfact struct {
+			e   ast.Expr
+			neg bool
+		}
+		var fs []sfact
+		pos := map[string]bool{}
+		for _, ft := range fg.DominatingFacts(st.loc) {
+			if ft.Tag != nil {
+				continue
+			}
+			fs = append(fs, sfact{ft.E, ft.Neg})
+			if !ft.Neg {
+				pos[exprStr(ft.E)] = true
+			}
+		}
+		for _, ft := range append([]sfact(nil), fs...) {
+			if be, ok := ast.Unparen(ft.e).(*ast.BinaryExpr); ok && ft.neg && be.Op == token.LAND {
+				if pos[exprStr(be.X)] {
+					fs = append(fs, sfact{be.Y, true})
+				}
+				if pos[exprStr(be.Y)] {
+					fs = append(fs, sfact{be.X, true})
+				}
+			}
+		}
 		neg, nonneg := false, false
-		for _, ft := range fg.DominatingFacts(l) {
-			be, ok := ast.Unparen(ft.E).(*ast.BinaryExpr)
-			if !ok || ft.Tag != nil || !isD(be.X) {
+		for _, ft := range fs {
+			be, ok := ast.Unparen(ft.e).(*ast.BinaryExpr)
+			if !ok || !isD(be.X) {
 				continue
 			}
 			tv, has := info.Types[be.Y]
@@ -666,13 +727,13 @@ func checkRounding(c *Ctx, fn *FuncInfo, up bool) {
 				continue
 			}
 			switch {
-			case be.Op == token.LSS && !ft.Neg:
+			case be.Op == token.LSS && !ft.neg:
 				neg = true
-			case be.Op == token.LSS && ft.Neg, be.Op == token.GEQ && !ft.Neg:
+			case be.Op == token.LSS && ft.neg, be.Op == token.GEQ && !ft.neg:
 				nonneg = true
-			case be.Op == token.GEQ && ft.Neg:
+			case be.Op == token.GEQ && ft.neg:
 				neg = true
-			case be.Op == token.GTR && !ft.Neg:
+			case be.Op == token.GTR && !ft.neg:
 				nonneg = true
 			}
 		}
@@ -688,13 +749,13 @@ func checkRounding(c *Ctx, fn *FuncInfo, up bool) {
 			problems = append(problems, fmt.Sprintf("for d < 0 it equals %s·d, which is not %s d", sumNeg.RatString(), dirWord))
 		}
 		if len(problems) == 0 {
-			c.ok(key, as.Pos(), true, "%s lies strictly %s d for every sign of d possible here", exprStr(E), dirWord)
+			c.ok(key, st.pos, true, "%s lies strictly %s d for every sign of d possible here", exprStr(st.E), dirWord)
 		} else {
-			c.bad(key, as.Pos(), "the nudged value %s moves the wrong way: %s — the index box (or the search window) is shrunk on that side and objects touching the edge are not found", exprStr(E), strings.Join(problems, "; "))
+			c.bad(key, st.pos, "the nudged value %s moves the wrong way: %s — the index box (or the search window) is shrunk on that side and objects touching the edge are not found", exprStr(st.E), strings.Join(problems, "; "))
 		}
 	}
-	if nAssign < 2 {
-		c.bad(name+"/shape", fn.Decl.Pos(), "expected the plain conversion and at least one nudged value for the result of %s", name)
+	if nPlain == 0 || nNudge == 0 {
+		c.bad(name+"/shape", fn.Decl.Pos(), "expected the plain conversion and at least one nudged value among the results of %s (found %d/%d)", name, nPlain, nNudge)
 	}
 }
 
@@ -1048,4 +1109,183 @@ func ruleMultiGlobUnbounded(c *Ctx) {
 		return true
 	})
 	c.check(okTrue, "unbounded-pattern-unbounds-range", fn.Decl.Pos(), "a pattern without literal prefix sets both limits to \"\" and ends the merge", "a pattern without a literal prefix does not reset the range to unbounded and end the merge")
+}
+
+func init() {
+	register(&Rule{ID: "R20.no-aliased-compaction", Props: []string{"C20", "C05"}, Floor: 1,
+		Text: "two local slices that share a backing array (b = a, without a copy) are not used independently: in internal/server and internal/collection, after one of them is modified in place (an element or element-field store, a swap-remove, an append-compaction, an in-place sort) the other is not read again — fenceMatchRoam compacts the old-neighbour list in place while the new-neighbour list is still needed, so a shortcut that makes the two lists one array reports one neighbour twice and drops another",
+		Run:  ruleNoAliasedCompaction})
+}
+
+func ruleNoAliasedCompaction(c *Ctx) {
+	n := 0
+	for _, rel := range []string{"internal/server", "internal/collection"} {
+		for _, fn := range c.AllFuncs(rel) {
+			info := fn.Info()
+			isLocalSlice := func(e ast.Expr) types.Object {
+				id, ok := ast.Unparen(e).(*ast.Ident)
+				if !ok {
+					return nil
+				}
+				v, ok := info.ObjectOf(id).(*types.Var)
+				if !ok || v.IsField() || v.Pkg() == nil || v.Parent() == v.Pkg().Scope() {
+					return nil
+				}
+				if _, ok := v.Type().Underlying().(*types.Slice); !ok {
+					return nil
+				}
+				return v
+			}
+			// alias assignments a = b between local slices (both sides plain identifiers)
+			type aliasT struct {
+				as   *ast.AssignStmt
+				a, b types.Object
+			}
+			var aliases []aliasT
+			inspectNoLit(fn.Decl.Body, func(x ast.Node) bool {
+				as, ok := x.(*ast.AssignStmt)
+				if !ok || len(as.Lhs) != len(as.Rhs) || (as.Tok != token.ASSIGN && as.Tok != token.DEFINE) {
+					return true
+				}
+				for i := range as.Lhs {
+					a, b := isLocalSlice(as.Lhs[i]), isLocalSlice(as.Rhs[i])
+					if a != nil && b != nil && a != b {
+						aliases = append(aliases, aliasT{as, a, b})
+					}
+				}
+				return true
+			})
+			if len(aliases) == 0 {
+				continue
+			}
+			fg := newFlowGraph(info, fn.Decl.Body)
+			// in-place modifications of a slice variable
+			modifies := func(nd ast.Node, v types.Object) bool {
+				hit := false
+				inspectNoLit(nd, func(x ast.Node) bool {
+					switch s := x.(type) {
+					case *ast.AssignStmt:
+						for i, l := range s.Lhs {
+							// v[i] = …, v[i].f = …
+							e := ast.Unparen(l)
+							for {
+								if se, ok := e.(*ast.SelectorExpr); ok {
+									e = ast.Unparen(se.X)
+									continue
+								}
+								break
+							}
+							if ix, ok := e.(*ast.IndexExpr); ok && isLocalSlice(ix.X) == v {
+								hit = true
+							}
+							// v = append(v[:i], …)
+							if isLocalSlice(l) == v && i < len(s.Rhs) && len(s.Lhs) == len(s.Rhs) {
+								if call, ok := ast.Unparen(s.Rhs[i]).(*ast.CallExpr); ok && len(call.Args) > 0 {
+									if id, ok := ast.Unparen(call.Fun).(*ast.Ident); ok && id.Name == "append" {
+										if sl, ok := ast.Unparen(call.Args[0]).(*ast.SliceExpr); ok && isLocalSlice(sl.X) == v {
+											hit = true
+										}
+									}
+								}
+							}
+						}
+					case *ast.CallExpr:
+						// sort.Slice(v, …), sort.Sort-like helpers taking the slice: in-place reordering
+						if f := callee(info, s); f != nil && f.Pkg() != nil && (f.Pkg().Path() == "sort" || strings.HasPrefix(f.Name(), "sort")) {
+							for _, a := range s.Args {
+								if isLocalSlice(a) == v {
+									hit = true
+								}
+							}
+						}
+					}
+					return true
+				})
+				return hit
+			}
+			reads := func(nd ast.Node, v types.Object, skip *ast.AssignStmt) bool {
+				hit := false
+				inspectNoLit(nd, func(x ast.Node) bool {
+					if as, ok := x.(*ast.AssignStmt); ok {
+						if as == skip {
+							return false
+						}
+						// a plain re-assignment of v (v = …) is not a read of the shared array
+						for _, r := range as.Rhs {
+							ast.Inspect(r, func(y ast.Node) bool {
+								if id, ok := y.(*ast.Ident); ok && info.ObjectOf(id) == v {
+									hit = true
+								}
+								return true
+							})
+						}
+						for _, l := range as.Lhs {
+							if _, plain := ast.Unparen(l).(*ast.Ident); !plain {
+								ast.Inspect(l, func(y ast.Node) bool {
+									if id, ok := y.(*ast.Ident); ok && info.ObjectOf(id) == v {
+										hit = true
+									}
+									return true
+								})
+							}
+						}
+						return false
+					}
+					if id, ok := x.(*ast.Ident); ok && info.ObjectOf(id) == v {
+						hit = true
+					}
+					return true
+				})
+				return hit
+			}
+			for _, al := range aliases {
+				n++
+				key := fmt.Sprintf("%s→%s~%s", funcName(fn.Obj), al.a.Name(), al.b.Name())
+				aloc := fg.LocOf(al.as)
+				if !aloc.Valid() {
+					c.und(key, al.as.Pos(), "alias assignment not located")
+					continue
+				}
+				problem := ""
+				var at token.Pos
+				for _, pair := range [][2]types.Object{{al.a, al.b}, {al.b, al.a}} {
+					mod, other := pair[0], pair[1]
+					// a modification through `mod` reachable from the alias …
+					var modLocs []Loc
+					fg.Reach(PathQuery{From: aloc, Target: func(l Loc) bool {
+						if modifies(l.Node, mod) {
+							modLocs = append(modLocs, l)
+						}
+						return false
+					}})
+					for _, ml := range modLocs {
+						// … after which `other` is read again (before being re-assigned as a whole)
+						again, _ := fg.Reach(PathQuery{From: ml,
+							Target: func(l Loc) bool { return reads(l.Node, other, nil) },
+							Avoid: func(l Loc) bool {
+								// `other` (or `mod`) re-assigned from something else ends the aliasing
+								if as, ok := l.Node.(*ast.AssignStmt); ok && as != al.as {
+									for i, lh := range as.Lhs {
+										if o := isLocalSlice(lh); (o == other || o == mod) && i < len(as.Rhs) && !reads(as.Rhs[i], mod, nil) && !reads(as.Rhs[i], other, nil) {
+											return true
+										}
+									}
+								}
+								return false
+							}})
+						if again && problem == "" {
+							problem = fmt.Sprintf("%s is modified in place and %s, which shares its backing array since `%s = %s`, is read afterwards", mod.Name(), other.Name(), al.a.Name(), al.b.Name())
+							at = ml.Node.Pos()
+						}
+					}
+				}
+				if problem == "" {
+					c.ok(key, al.as.Pos(), true, "after the two slices share an array, neither is read again once the other was modified in place")
+				} else {
+					c.bad(key, at, "%s: the reader sees the other list's swaps and truncations (an element reported twice, another dropped)", problem)
+				}
+			}
+		}
+	}
+	c.stat("local_slice_aliases", n)
 }
